@@ -23,3 +23,21 @@ Theorem C09_trailing_whitespace_noop : forall l, ws_before_cr_free l ->
   fix_trailing_whitespace l = l.
 Proof. exact fix_trailing_whitespace_noop. Qed.
 Print Assumptions C09_trailing_whitespace_noop.
+
+Require Import Shape ShapeProofs NormProofs.
+(* both normalisers of rule_list.fix (after phase 1) are the identity on a list in which every blank_line object is
+   alone on its line, no inner line is empty and no whitespace ends a line: the second fix run starts from such a
+   list when the first left no trailing whitespace, so its normalisation step changes nothing *)
+Theorem C09_normalisers_identity_on_clean : forall l,
+  alone_from true l = true -> no_cr_cr l = true -> no_ws_cr l = true ->
+  (match l with t :: _ => is_cr t = true -> is_ws (last l t) = false | [] => True end) ->
+  normalise_toks l = l.
+Proof. exact normalisers_identity_on_clean. Qed.
+Print Assumptions C09_normalisers_identity_on_clean.
+
+(* "running the normalisers twice equals running them once" is false of the faithful model without a hypothesis:
+   of two adjacent whitespace objects at the end of a line each run removes one (known finding: adjacent
+   whitespace tokens after concurrent_012 / sequential_009 / constant_016 make a second --fix change the file) *)
+Theorem C09_normalise_idempotent_refuted : exists l, normalise_toks (normalise_toks l) <> normalise_toks l.
+Proof. exact normalise_idempotent_refuted. Qed.
+Print Assumptions C09_normalise_idempotent_refuted.
